@@ -124,11 +124,47 @@ FIXED = ["", "AV:N/AC:L/Au:N/C:P/I:P/A:P", "xAV:N/AC:L/Au:N/C:P/I:P/A:P", "CVSS:
          "7.5/CVSS:3.1/AV:N/AC:L/PR:N/UI:N/S:U/C:H/I:H/A:H", "CVSS:3.1/CVSS:3.1/AV:N/AC:L/PR:N/UI:N/S:U/C:H/I:H/A:H"]
 
 
+def fragment_text(rng):
+    """a text containing a run of >= 26 class characters made of OPTIONAL fields only (no base metric at all):
+    a candidate the scanner hands to a constructor, which must reject it with an error of the hierarchy"""
+    ver = rng.choice("23")
+    frag = ""
+    while len(frag) < 26:
+        frag = core.optional_only(ver, rng, 1)[0]
+    if rng.random() < 0.3:
+        frag = frag.split("/", 1)[1] if frag.startswith("CVSS") else frag
+    text, must = make_text(rng)
+    return rng.choice([frag, text + " " + frag, frag + "\n" + text, text + "(" + frag + ")" + text]), []
+
+
+def long_text(rng, boundary, delta):
+    """a LONG text (around `boundary` characters, a power of two) with a full-length valid v3 vector that starts `delta`
+    characters before the boundary and a short v2 vector just after it: sizes at which chunked / windowed scanning,
+    buffers or recursion limits would start to matter"""
+    full = core.rand_vector("3", rng, p_absent=0.0, p_nd=0.0)
+    short = core.rand_vector("2", rng, p_absent=1.0)
+    filler = "".join(rng.choice(FILLER) for _ in range(40)) or "lorem ipsum "
+    head_len = max(0, boundary - delta)
+    head = (filler * (head_len // max(1, len(filler)) + 1))[:head_len]
+    if head and head[-1] in CLASS:
+        head = head[:-1] + " "
+    tail = " " + short + " " + (filler * 3)[: rng.randrange(0, 300)]
+    if rng.random() < 0.5:
+        tail += (filler * (boundary // max(1, len(filler)) + 1))[: boundary // 2] + " " + full + "."
+    return head + full + tail, [("3", full), ("2", short)]
+
+
 def run(ctx):
     rng = ctx.rng
     texts = [(t, []) for t in FIXED]
     for _ in range(ctx.n(6000, 150000)):
         texts.append(make_text(rng))
+    for _ in range(ctx.n(300, 6000)):
+        texts.append(fragment_text(rng))
+    for boundary in ([4096, 65536] if ctx.tier == "quick" else [1024, 4096, 8192, 16384, 32768, 65536, 131072, 262144]):
+        for delta in list(range(0, 14)) + [rng.randrange(14, 140) for _ in range(4)] + [-1, -5]:
+            texts.append(long_text(rng, boundary, delta))
+    ctx.extra["longest_text"] = max(len(t) for t, _ in texts)
     ctx.count(len(texts))
     ctx.sample({"text": texts[len(FIXED) + 1][0], "must_contain": texts[len(FIXED) + 1][1]})
     impl_sets = []
